@@ -37,7 +37,7 @@ def run(chk):
     for st in states:
         groups.setdefault(tuple(repr(h["op"]) for h in st["hist"]), []).append(st["hist"])
     keys = [tuple(k) for k in model.c["probes"]]
-    forms = ["enable-seq", "enable-once", "with-nested", "to-args", "convert-with", "decorator", "alias", "object", "from-text"]
+    forms = ["enable-seq", "enable-once", "with-nested", "to-args", "ito-args", "m_as-args", "convert-with", "decorator", "alias", "object", "from-text"]
     nforms = 0
     for opkey, variants in groups.items():
         ops = [h["op"] for h in variants[0]]
@@ -60,6 +60,31 @@ def run(chk):
                             {"registry": model.lines(), "activations": ops, "form": form, "probe": k, "expected": sorted(map(repr, al)), "observed": repr(got[k])})
     chk.traces += len(groups)
     chk.notes["stack_form_realisations"] = nforms
+    # the graph search iterates over sets of dimension containers: the same stacks under other hash seeds
+    import json, subprocess, sys
+    work = os.path.join(wd, "hashseed.json")
+    multi = {k: v for k, v in groups.items() if len(v[0]) >= 2}
+    with open(work, "w") as fh:
+        json.dump({"const": model.c, "stacks": [[h["op"] for h in v[0]] for v in multi.values()]}, fh)
+    for seed in (("1", "2", "3", "4", "5") if thorough else ("1", "2", "3")):
+        p = subprocess.run([sys.executable, "-m", "harness.props.c11", work], capture_output=True, text=True,
+                           env=dict(os.environ, PYTHONHASHSEED=seed), cwd=os.path.dirname(os.path.dirname(os.path.dirname(os.path.abspath(__file__)))))
+        if p.returncode != 0:
+            raise MachineryError("hash-seed worker failed: " + p.stderr[-800:])
+        answers = json.loads(p.stdout)
+        for (opkey, variants), got_l in zip(multi.items(), answers):
+            got = {tuple(k): (tuple(v[:1]) + ((F(v[1][0], v[1][1]),) if len(v) > 1 and isinstance(v[1], list) else tuple(v[1:]))) for k, v in got_l}
+            chk.case((opkey, "hashseed", seed))
+            best = None
+            for hist in variants:
+                bad = [k for k in keys if not pm.matches(k, got[k], hist[-1]["obs"][k])]
+                if best is None or len(bad) < len(best[1]):
+                    best = (hist, bad)
+            for k in best[1]:
+                al = pm.allowed(k, best[0][-1]["obs"][k])
+                chk.diverge({"clause": "value-or-outcome", "form": "enable-seq", "hashseed": "varied", "nctx": len(variants[0])},
+                            {"registry": model.lines(), "activations": [h["op"] for h in variants[0]], "probe": k, "PYTHONHASHSEED": seed,
+                             "expected": sorted(map(repr, al)), "observed": repr(got[k])})
     bundled(chk, rng, thorough)
     return chk.finish(
         rule="cases = stacks of up to three activations of MC_C11 (context, keyword parameter) realised through nine activation forms, 16 "
@@ -114,6 +139,13 @@ def realise(model, ops, form, keys):
         try:
             if form == "to-args":
                 out[k] = ("ok", F(u.Quantity(F(3), k[1]).to(k[2], *names, **kw).magnitude))
+            elif form == "ito-args":
+                q = u.Quantity(F(3), k[1])
+                q.ito(k[2], *names, **kw)
+                out[k] = ("ok", F(q.magnitude))
+            elif form == "m_as-args":
+                with u.context(*names, **kw):
+                    out[k] = ("ok", F(u.Quantity(F(3), k[1]).m_as(k[2])))
             elif form == "convert-with":
                 with u.context(*names, **kw):
                     out[k] = ("ok", F(u.convert(F(3), k[1], k[2])))
@@ -225,8 +257,28 @@ def bundled(chk, rng, thorough):
         chk.samples.append({"bundled": {"stack": e["stack"], "a": e["a"][0]["s"], "b": e["b"][0]["s"], "res": e["res"]}})
 
 
+def worker(path):
+    """subprocess entry (other PYTHONHASHSEED): realise each stack with enable-seq and print the probe answers"""
+    import json, logging, warnings
+    logging.disable(logging.CRITICAL)
+    warnings.simplefilter("ignore")
+    d = json.load(open(path))
+    model = pm.Model(d["const"])
+    keys = [tuple(k) for k in model.c["probes"]]
+    out = []
+    for ops in d["stacks"]:
+        got = realise(model, ops, "enable-seq", keys)
+        out.append([[list(k), [v[0]] + ([[v[1].numerator, v[1].denominator]] if len(v) > 1 and isinstance(v[1], F) else list(v[1:]))] for k, v in got.items()])
+    print(json.dumps(out))
+
+
 def replay(chk, rec):
     import json
     print(json.dumps(rec["detail"], indent=1)[:4000])
     chk.seed = rec.get("seed", 0)
     return run(chk)
+
+
+if __name__ == "__main__":
+    import sys
+    worker(sys.argv[1])
